@@ -105,6 +105,60 @@ func corpusPairs(c *mon.Ctx, o pairOpts, item *int, sink pairSink) {
 			}
 		}
 	}
+	lineLatticePairs(c, o, item, sink)
+}
+
+// latticeLines returns every line string of k positions on the 3x3 lattice
+// whose consecutive positions differ.
+func latticeLines(k int) [][]exact.P {
+	var pts []exact.P
+	for x := int64(0); x < 3; x++ {
+		for y := int64(0); y < 3; y++ {
+			pts = append(pts, exact.P{X: x * gen.U, Y: y * gen.U})
+		}
+	}
+	var out [][]exact.P
+	var rec func(cur []exact.P)
+	rec = func(cur []exact.P) {
+		if len(cur) == k {
+			out = append(out, append([]exact.P{}, cur...))
+			return
+		}
+		for _, p := range pts {
+			if len(cur) > 0 && cur[len(cur)-1] == p {
+				continue
+			}
+			rec(append(cur, p))
+		}
+	}
+	rec(nil)
+	return out
+}
+
+// lineLatticePairs enumerates line string against line string (and point) on
+// the 3x3 lattice: receivers of 2-3 [4] positions, arguments of 2-3 positions.
+func lineLatticePairs(c *mon.Ctx, o pairOpts, item *int, sink pairSink) {
+	var as, bs [][]exact.P
+	for k := 2; k <= 3; k++ {
+		bs = append(bs, latticeLines(k)...)
+	}
+	as = append(as, bs...)
+	if o.halfLattice {
+		as = append(as, latticeLines(4)...)
+	}
+	for _, a := range as {
+		*item++
+		if !c.Mine(*item) {
+			continue
+		}
+		sa := &exact.Shape{Kind: exact.KLine, Pts: a}
+		for _, b := range bs {
+			sink(sa, &exact.Shape{Kind: exact.KLine, Pts: b}, "corpus-line:line", true, false, 0)
+		}
+		for _, p := range latticeLines(1) {
+			sink(sa, &exact.Shape{Kind: exact.KPoint, Pts: p}, "corpus-line:point", true, false, 0)
+		}
+	}
 }
 
 var kinds4 = []exact.Kind{exact.KPoint, exact.KRect, exact.KLine, exact.KPoly}
